@@ -121,6 +121,12 @@ impl Link {
         self.ops.last()
     }
 
+    /// True when a line without code (REM, DATA) follows the last opcode.
+    pub fn has_line_at_end(&self) -> bool {
+        let end = self.ops.len();
+        self.symbols.range(0..).any(|(_, (addr, _))| *addr == end)
+    }
+
     pub fn drain<R>(&mut self, range: R) -> std::vec::Drain<'_, Opcode>
     where
         R: std::ops::RangeBounds<usize>,
